@@ -89,6 +89,98 @@ pub fn check_text(text: &str) -> Result<usize, Failure> {
     Ok(checks)
 }
 
+/// one very long line (with wide characters at given places) after 0..2 short lines; the reference positions
+/// are computed here from the definition (line = line breaks before the offset, column = UTF-16 units between
+/// the line start and the offset), at sampled offsets only
+fn long_line(case: &Case) -> Verdict {
+    let (Some(len), Some(lead), Some(wide)) = (case["len"].as_u64(), case["lead"].as_u64(), case["wide"].as_array()) else { return Verdict::Skip("malformed-case") };
+    let len = (len as usize).clamp(1, 400_000);
+    let nl = if case["crlf"].as_bool() == Some(true) { "\r\n" } else { "\n" };
+    let mut places: Vec<(usize, String)> = wide.iter().filter_map(|w| Some((w[0].as_u64()? as usize % len, w[1].as_str()?.to_string()))).collect();
+    places.sort();
+    places.dedup_by_key(|p| p.0);
+    let mut text = String::new();
+    for k in 0..lead as usize % 3 {
+        text.push_str(&format!("// é line {k}{nl}"));
+    }
+    let line_no = lead as usize % 3;
+    let line_start = text.len();
+    let mut interesting: Vec<usize> = Vec::new();
+    let mut next = places.iter().peekable();
+    let mut col = 0usize;
+    while col < len {
+        if let Some((at, s)) = next.peek() {
+            if *at <= col {
+                interesting.push(text.len());
+                text.push_str(s);
+                interesting.push(text.len());
+                col += s.len();
+                next.next();
+                continue;
+            }
+        }
+        text.push((b'a' + (col % 23) as u8) as char);
+        col += 1;
+    }
+    let line_end = text.len();
+    if case["tail"].as_bool() == Some(true) {
+        text.push_str(nl);
+        text.push_str("def after;");
+    }
+    let mut offsets: Vec<usize> = vec![line_start, line_end, text.len()];
+    for &i in &interesting {
+        for d in 0..4 {
+            offsets.push(i.saturating_sub(d));
+            offsets.push(i + d);
+        }
+    }
+    for p in [1usize << 15, 1 << 16, 1 << 17, 1 << 18] {
+        for d in 0..3 {
+            offsets.push(line_start + p + d);
+            offsets.push((line_start + p).saturating_sub(d));
+        }
+    }
+    let mut rng = Rng::new(digest(case));
+    for _ in 0..300 {
+        offsets.push(line_start + rng.below(line_end - line_start + 1));
+    }
+    offsets.retain(|&o| o <= text.len() && text.is_char_boundary(o));
+    offsets.sort();
+    offsets.dedup();
+    let li = LineIndex::new(&text);
+    let fail = |oracle: &str, detail: String| Verdict::Fail(Failure::new(oracle, format!("{oracle}:long-line"), format!("a line of {} bytes (line {line_no}, wide characters at line offsets {:?}): {detail}", line_end - line_start, places.iter().map(|p| p.0).collect::<Vec<_>>())));
+    for &o in &offsets {
+        let (rl, rc) = if o <= line_end {
+            if o < line_start {
+                continue;
+            }
+            (line_no, text[line_start..o].encode_utf16().count())
+        } else if o >= line_end + nl.len() {
+            (line_no + 1, text[line_end + nl.len()..o].encode_utf16().count())
+        } else {
+            continue;
+        };
+        let p = lsp::to_proto::position(&li, TextSize::new(o as u32));
+        if (p.line as usize, p.character as usize) != (rl, rc) {
+            return fail("C10.to-position", format!("offset {o} -> ({}, {}), by definition ({rl}, {rc})", p.line, p.character));
+        }
+        let back = lsp::from_proto::position(&li, p);
+        if u32::from(back) as usize != o {
+            return fail("C10.roundtrip", format!("offset {o} -> ({}, {}) -> {}", p.line, p.character, u32::from(back)));
+        }
+        let got = lsp::from_proto::position(&li, Position::new(rl as u32, rc as u32));
+        if u32::from(got) as usize != o {
+            return fail("C10.from-position", format!("({rl}, {rc}) -> {}, by definition {o}", u32::from(got)));
+        }
+    }
+    // a column past the end of the long line means its end
+    let past = lsp::from_proto::position(&li, Position::new(line_no as u32, (len + 10) as u32));
+    if u32::from(past) as usize != line_end {
+        return fail("C10.from-position", format!("column past the end of the line -> {}, the line ends at {line_end}", u32::from(past)));
+    }
+    Verdict::pass(!places.is_empty())
+}
+
 fn enumerate(len: usize, first: usize, emit: Emit) {
     // all strings of exactly `len` symbols whose first symbol is `first`
     let mut idx = vec![0usize; len];
@@ -194,6 +286,30 @@ impl Property for C10 {
                 }
             }
         }));
+        // lines longer than 2^16 and 2^17 bytes (generated tables, minified text) with wide characters far
+        // into them: positions around every wide character, around the powers of two, and sampled ones
+        fams.push(Family::new("long-lines", ctx.tier.pick(2, 16), |_c, rng, emit| {
+            for _ in 0..12 {
+                let len = [65_530 + rng.below(16), 65_536 + rng.below(5000), 131_070 + rng.below(8), 70_000 + rng.below(200_000)][rng.below(4)];
+                let lead = rng.below(3);
+                let nwide = 1 + rng.below(6);
+                let wide: Vec<_> = (0..nwide)
+                    .map(|k| {
+                        let at = match rng.below(4) {
+                            0 => 65_530 + rng.below(12),
+                            1 => rng.below(len),
+                            2 => len - 1 - rng.below(len.min(40)),
+                            _ => (65_536 + rng.below(len.saturating_sub(65_536).max(1))).min(len - 1),
+                        };
+                        let w = ["é", "€", "😀", "\u{800}", "\u{a0}"][(k + rng.below(5)) % 5];
+                        json!([at, w])
+                    })
+                    .collect();
+                if !emit(json!({"kind": "long-line", "len": len, "lead": lead, "wide": wide, "crlf": rng.chance(1, 2), "tail": rng.chance(1, 2)})) {
+                    return;
+                }
+            }
+        }));
         fams.push(Family::new("corpus", 1, |_c, rng, emit| {
             for (_, text) in corpus::seeds().iter() {
                 if !emit(json!({"kind": "pos", "text": text})) {
@@ -217,6 +333,9 @@ impl Property for C10 {
         fams
     }
     fn run_case(&self, _ctx: &Ctx, case: &Case) -> Verdict {
+        if case["kind"] == "long-line" {
+            return long_line(case);
+        }
         let Some(text) = case.get("text").and_then(|t| t.as_str()) else { return Verdict::Skip("malformed-case") };
         match check_text(text) {
             Ok(_) => Verdict::pass(!text.is_ascii() || text.contains('\r') || text.contains('\x0c')),
